@@ -343,8 +343,12 @@ def shipped_rule(ctx: Ctx, rule_id: str, kinds) -> None:
                     "hint": {"501": "hint 501", "502": ""},
                     "pkg": {"7P": "[1] U [2]", "10P": None},
                 }[kind]
-                self_obj = Obj(cname, {attr: table, "logger": Opaque("logger", kind="logging.Logger", truthy=True), "_evaluation_methods": {},
-                                       "edifact_format": Opaque("fmt", truthy=True)})
+                from ..fdvalues import ClassVal
+
+                try:
+                    self_obj = it.construct(ClassVal(cname), [table], {}, None, None)  # the real __init__ chain is interpreted
+                except PyRaise as err:
+                    return ("raise in __init__", err.exc.cls)
                 args_ = [key] + ([Opaque_data()] if kind == "rc" else [])
                 try:
                     res = it.await_(it.call(it.getattr(self_obj, meth, None, None), args_, {}, None, None), None, None)
